@@ -64,6 +64,7 @@ func genStream(t *rapid.T) StreamCase {
 	n := rapid.SampledFrom([]int{1, 1, 2, 2, 3, 4}).Draw(t, "nobj")
 	for i := 0; i < n; i++ {
 		o := genObj(t, fmt.Sprintf("o%d", i), "")
+		o.Huge = rapid.IntRange(0, 15).Draw(t, "huge") == 0
 		c.Objs = append(c.Objs, o)
 		var d *ObjSpec
 		if rapid.IntRange(0, 2).Draw(t, "dirty") != 0 {
@@ -362,6 +363,30 @@ func runStream(c StreamCase, rec *h.Rec) error {
 	rec.Class("reader=" + readerClass(c.Reader))
 	if c.Reader.Kind == "bufio" || c.Reader.Kind == "raw" {
 		rec.Class("chunks=" + c.Reader.Chunk.class())
+	}
+
+	// An object whose scale does not fit the fixed-size text encoding cannot be written: EVERY writing entry point must
+	// then return an error (no bytes beyond BinarySize, no object that cannot be read back); nothing is decoded.
+	for i, o := range objs {
+		if !hasUnencodableScale(o) {
+			continue
+		}
+		rec.Class("unencodable-scale")
+		T := c.Objs[i].T
+		var b []byte
+		var bb bytes.Buffer
+		var n int64
+		merr, pm1 := guarded(func() (e error) { b, e = o.MarshalBinary(); return })
+		werr, pm2 := guarded(func() (e error) { n, e = o.WriteTo(&bb); return })
+		if pm1 != "" || pm2 != "" || merr == nil || werr == nil {
+			msg := fmt.Sprintf("%s with a scale outside [1e-99, 1e100): BinarySize()=%d; MarshalBinary: %d bytes, err=%v %s; WriteTo(io.Writer): n=%d, %d bytes delivered, err=%v %s", T, o.BinarySize(), len(b), merr, pm1, n, bb.Len(), werr, pm2)
+			if rec.Known(scaleRangeKey, msg) {
+				rec.Class("known=" + scaleRangeKey)
+				return nil
+			}
+			return h.Failf(scaleRangeKey, "%s", msg)
+		}
+		return nil
 	}
 
 	if _, err := checkWrite(objs, c.Objs, c.Writer, rec); err != nil {
